@@ -118,7 +118,7 @@ pub fn gen(id: &str, tier: &str, rng: &mut Rng, emit: &mut dyn FnMut(Op)) {
                 });
             }
             // files are exercised by their own properties; C17 is about parsers and matchers
-            pool.retain(|o| !matches!(o.name.as_str(), "distinfo.verify" | "pkgdb.iter"));
+            pool.retain(|o| !matches!(o.name.as_str(), "distinfo.verify" | "entry.verify" | "pkgdb.iter"));
             let n = if tier == "thorough" { 60000 } else { 4000 };
             fuzz(&pool, n, rng, emit);
         }
